@@ -684,7 +684,16 @@ func (db *SpecDB) resolveContracts(P *Program) {
 			db.Skipped = append(db.Skipped, fmt.Sprintf("%s:%d (package %s not loaded)", c.File, c.Line, c.PkgPath))
 			continue
 		}
-		if c.funcType != "" {
+		if c.funcType == "func" {
+			// unnamed function type: functype func(a A, b B) R — the contract of calls through plain func values of that type
+			sg, err := c.resolveUnnamedFuncType(P)
+			if err != nil {
+				db.Errors = append(db.Errors, fmt.Sprintf("%s:%d: %v", c.File, c.Line, err))
+				continue
+			}
+			sig = sg
+			c.Key = "dyncall:" + typeStr(sg)
+		} else if c.funcType != "" {
 			o, err := P.resolveNamed(c.funcType, c.PkgPath, c.Imports)
 			if err != nil {
 				db.Errors = append(db.Errors, fmt.Sprintf("%s:%d: %v", c.File, c.Line, err))
@@ -727,6 +736,43 @@ func (db *SpecDB) resolveContracts(P *Program) {
 		}
 		db.Contracts[c.Key] = c
 	}
+}
+
+func (c *Contract) resolveUnnamedFuncType(P *Program) (*types.Signature, error) {
+	f, err := goparser.ParseFile(token.NewFileSet(), "sig.go", "package p\nfunc functype"+c.SigSrc[strings.Index(c.SigSrc, "("):]+" {}\n", 0)
+	if err != nil {
+		return nil, fmt.Errorf("cannot parse functype signature: %v", err)
+	}
+	fd := f.Decls[0].(*ast.FuncDecl)
+	tuple := func(fl *ast.FieldList) (*types.Tuple, error) {
+		var vs []*types.Var
+		if fl == nil {
+			return types.NewTuple(), nil
+		}
+		for _, fld := range fl.List {
+			t, err := P.resolveASTType(fld.Type, c.PkgPath, c.Imports)
+			if err != nil {
+				return nil, err
+			}
+			n := len(fld.Names)
+			if n == 0 {
+				n = 1
+			}
+			for i := 0; i < n; i++ {
+				vs = append(vs, types.NewVar(token.NoPos, nil, "", t))
+			}
+		}
+		return types.NewTuple(vs...), nil
+	}
+	ps, err := tuple(fd.Type.Params)
+	if err != nil {
+		return nil, err
+	}
+	rs, err := tuple(fd.Type.Results)
+	if err != nil {
+		return nil, err
+	}
+	return types.NewSignatureType(nil, nil, nil, ps, rs, false), nil
 }
 
 func (c *Contract) resolveFunc(P *Program) (*types.Func, error) {
